@@ -10,6 +10,7 @@ import (
 	"sync/atomic"
 	"time"
 
+	"rivaas.dev/binding"
 	"verif/harness/hx"
 )
 
@@ -200,5 +201,27 @@ func opqPrefill(r *hx.Rand, k int, v reflect.Value) {
 	}
 	if pv, ok := opqParse(k, hx.Pick(r, opqPool[k])); ok {
 		v.Set(pv)
+	}
+}
+
+// OBoom is a TextUnmarshaler whose UnmarshalText panics: application code at fault. faultT carries it with a
+// default tag, so the fault strikes while the type's field table is built (the default is converted there).
+type OBoom int
+
+func (*OBoom) UnmarshalText([]byte) error { panic("harness: UnmarshalText at fault") }
+
+type faultT struct {
+	L OBoom `query:"l" form:"l" default:"x"`
+}
+
+// injectFault binds faultT once at start-up (the panic of the application's own code is recovered, as a server's
+// recovery middleware would): whatever shared state binding keeps must survive it - every later first bind of
+// another type of this process runs after this fault.
+func injectFault() {
+	for i := 0; i < 2; i++ {
+		func() {
+			defer func() { _ = recover() }()
+			_, _ = binding.Query[faultT](url.Values{})
+		}()
 	}
 }
